@@ -489,6 +489,10 @@ func valuePositive(c *core.Ctx, at ssa.Instruction, v ssa.Value, depth int) posS
 	}
 	switch x := v.(type) {
 	case *ssa.Parameter:
+		// a parameter of an unexported function called from one place with a positive constant
+		if k, isK := singleSource(c, x).(*ssa.Const); isK && k.Value != nil && constant.Sign(k.Value) > 0 {
+			return posSummary{kind: posYes, why: "parameter " + x.Name() + " is only ever given the positive constant " + k.Value.String()}
+		}
 		for i, p := range x.Parent().Params {
 			if p == x {
 				return posSummary{kind: posIfArg, arg: i, why: "parameter " + x.Name()}
